@@ -354,6 +354,10 @@ double cimag(double _Complex z);
 #else
 #define GD_BUFFER_SIZE 9000000
 #endif
+#if defined GETDATA_VERIF && defined GD_VERIF_BUFFER_SIZE
+#undef GD_BUFFER_SIZE
+#define GD_BUFFER_SIZE GD_VERIF_BUFFER_SIZE
+#endif
 
 /* the default mplex cycle length */
 #define GD_MPLEX_CYCLE 10
